@@ -191,6 +191,9 @@ impl Ldap {
     ) -> Result<(LdapResult, Exop, SaslCreds)> {
         let id = self.next_msgid();
         self.last_id = id;
+        // Search options only apply to the operation they were given for; a Search has taken
+        // them by this point, any other operation discards them.
+        self.search_opts = None;
         let (tx, rx) = oneshot::channel();
         self.tx.send((id, op, req, self.controls.take(), tx))?;
         let response = if let Some(timeout) = self.timeout.take() {
